@@ -26,10 +26,11 @@ theorem le_bitCeil (n : Nat) : n ≤ bitCeil n := by
   have := Nat.lt_two_pow_self (n := n)
   omega
 
-theorem L_le_lslots (c : Cfg) (h : Babylon.Gen.Exec.localFactor = 2) : c.L ≤ c.lslots := by
+theorem L_le_lslots (c : Cfg) : c.L ≤ c.lslots := by
   unfold Cfg.lslots
-  have := le_bitCeil (Babylon.Gen.Exec.localFactor * c.L)
-  rw [h] at this ⊢
+  have := le_bitCeil (localFactor * c.L)
+  have h2 : localFactor = 2 := rfl
+  rw [h2] at this ⊢
   omega
 
 /-- not inside the local-push part of `enqueue_task` -/
